@@ -155,6 +155,31 @@ func createMethodMatcher(methods []string) (methodMatcher, error) {
 	return slicex.Subtract(methods, tbr), nil
 }
 
+// anyOfMatcher is satisfied as soon as one of its matchers is satisfied. An empty one matches everything.
+type anyOfMatcher []RouteMatcher
+
+func (m anyOfMatcher) Matches(request *heimdall.Request, keys, values []string) error {
+	var err error
+
+	for _, matcher := range m {
+		if err = matcher.Matches(request, keys, values); err == nil {
+			return nil
+		}
+	}
+
+	return err
+}
+
+// anyOf turns a list of matchers, which all have to be satisfied, into one, which
+// is satisfied as soon as one of the matchers is.
+func anyOf(matcher RouteMatcher) RouteMatcher {
+	if matchers, ok := matcher.(compositeMatcher); ok {
+		return anyOfMatcher(matchers)
+	}
+
+	return matcher
+}
+
 func createHostMatcher(hosts []config.HostMatcher) (RouteMatcher, error) {
 	matchers := make(compositeMatcher, len(hosts))
 
